@@ -5,16 +5,72 @@ PROP = {
     "files": ["dhcpd/c10_world_test.go", "dhcpd/c10_machine_test.go", "dhcpd/c10_regress_test.go"],
     "claimed": False,
     "level": "exploration",
-    "technique": "property-based testing (rapid): stateful history machine against a reference model",
-    "level_text": "tbd",
-    "level_note": "tbd",
+    "technique": "property-based testing (rapid): stateful history machine over the production DHCPv4 server "
+                 "(wire packets through the packet handler, static leases through the HTTP handlers, real "
+                 "leases.json) against a reference model of acknowledged leases and reservations; constructive "
+                 "pool-filling cases; a shadow restart after every step",
+    "level_text": "Generated histories (about 40 actions, 60 checked steps on average) of DISCOVER / REQUEST "
+                  "(selecting with right or wrong server id, init-reboot, renew) / DECLINE / RELEASE from 3-10 "
+                  "hardware addresses with matching, foreign, reserved, gateway, out-of-pool and out-of-subnet "
+                  "addresses and colliding hostnames, interleaved with add / update / remove of static leases "
+                  "(inside and outside the pool, on a client's current address, with a lease's current name), "
+                  "clock steps that expire some leases and not others, and restarts, over pools of 2-8 addresses "
+                  "so that exhaustion is common. After every step: Leases() must equal the model (accepted "
+                  "reservations + acknowledged, unexpired, unreleased, unrevoked dynamic leases), with one lease per "
+                  "address and per client, dynamic leases inside the pool and off the gateway; every OFFER/ACK must "
+                  "carry the client's reserved address, or an unreserved pool address nobody else holds; a DISCOVER "
+                  "of a client unknown to the server must be answered with an OFFER whenever a pool address appears "
+                  "in no lease entry and no reservation; leases.json (read by an independent decoder) must list "
+                  "exactly the in-memory table, each lease once; and a second server started from the data "
+                  "directory must report the same table and the same HostByIP / IPByHost / MACByIP answers. "
+                  "Separately, pools are filled by construction (reservations inside/outside the pool, some "
+                  "removed again, restarts): exactly as many new clients as unreserved addresses must each be "
+                  "offered a different address and one more gets none. Exploration: no absence claim.",
+    "level_note": "Sequential histories only (concurrency is C05). ICMP probing is off, so the blocklisting of "
+                  "addresses that answer a ping is not exercised. Hardware addresses are 6 bytes. Time is advanced "
+                  "by shifting the stored expiry instants in memory and in leases.json (DESIGN 3.4); steps are "
+                  "chosen so that no lease is ever within a minute of its expiry. The hostname of an entry that is "
+                  "not a current lease (offered but never acknowledged, expired) and the name a nameless lease may "
+                  "be given on load are not compared. Whether an exhausted pool may reuse entries of expired or "
+                  "never acknowledged leases is left open (both outcomes accepted, the offer is checked like any "
+                  "other). Trusts insomniacslk/dhcp for encoding/decoding packets, encoding/json, net/netip.",
     "tests": [
-        ("TestVFC10Machine", (500, 3000), {"steps": 40}),
-        ("TestVFC10OfferWhenFree", (400, 2000)),
+        ("TestVFC10Machine", (500, 8000), {"steps": 40}),
+        ("TestVFC10OfferWhenFree", (400, 4000)),
     ],
     "plain": ["TestVFC10Regress"],
     "shards": (4, 16),
     "workers": (4, 16),
-    "rule": "tbd",
-    "assumptions": [],
+    "rule": "One evaluation = one generated history (TestVFC10Machine: drawn configuration (/24 or /28, pool of 2-8 "
+            "addresses at drawn offsets), rapid state machine of ~40 actions, some of them composite "
+            "(DISCOVER+REQUEST, all idle clients ask); TestVFC10OfferWhenFree: drawn reservations, then the pool is "
+            "filled client by client) with every invariant checked after every single message / API call / clock "
+            "step / restart (steps_checked counts them). A history is non-trivial if a new client asked when no "
+            "pool address was free of lease entries, or when exactly one was, while at least one reservation "
+            "existed; or a DECLINE hit an existing dynamic lease; or the server was restarted after the table had "
+            "changed. Distinct = FNV-64 of the sequence of (step kind, outcome kind).",
+    "assumptions": [
+        "github.com/insomniacslk/dhcp encodes and decodes DHCPv4 packets correctly (requests are serialised and "
+        "parsed before delivery, replies are parsed from the bytes written to the socket)",
+        "moving every stored expiry instant back by d (memory and leases.json) is equivalent to the clock "
+        "advancing by d: the server only compares stored instants with time.Now()",
+        "the server identifier is the gateway address (what Start() would learn from the interface is set "
+        "directly; no socket is opened)",
+        "an ACK carrying an address is the acknowledgement of a lease of that address, including the ACK this "
+        "server sends in reply to DECLINE",
+        "an accepted static-lease request revokes the dynamic leases of that client and of that address; a "
+        "rejected one changes nothing",
+    ],
+    "require_classes": {
+        "quick": ["nontrivial", "history:exhausted_after_reservation", "history:decline_effective",
+                  "history:restart_after_change", "history:offer_required"],
+        "thorough": ["nontrivial", "history:exhausted_after_reservation", "history:last_free_after_reservation",
+                     "history:decline_effective", "history:restart_after_change", "history:offer_required",
+                     "history:recycled", "history:static_inside_pool", "history:static_outside_pool",
+                     "history:static_evicts_holder", "history:static_removed", "history:dynamic_removed_via_api",
+                     "history:release_effective", "history:reservation_inside_pool",
+                     "history:reservation_outside_pool", "history:reservation_removed_again",
+                     "history:offer_left_unacknowledged", "history:pool_filled",
+                     "step:static_update=accepted", "step:req_renew=ack", "step:req_initreboot=ack"],
+    },
 }
